@@ -12,6 +12,7 @@ WT=/tmp/seedv/$NAME
 rm -rf "$WT"; git -C /repo worktree prune; git -C /repo worktree add -q --detach "$WT" HEAD || exit 2
 trap 'git -C /repo worktree remove --force "$WT" 2>/dev/null; git -C /repo checkout -q -- . 2>/dev/null' EXIT
 cd "$WT"
+mkdir -p tun/client/ui/build && echo '<html></html>' > tun/client/ui/build/index.html  # untracked dummy: tun/client embeds it
 PKGS=$(grep -o '^+++ b/[^ ]*' "$SD/patch.diff" | sed 's|+++ b/||; s|/[^/]*$||' | sort -u | sed 's|^|./|; s|$|/...|' | tr '\n' ' ')
 echo "== packages touched: $PKGS"
 # demo without patch
@@ -32,7 +33,7 @@ if [ -n "${SEED_DEMO_CMD:-}" ]; then
   echo "== demo WITH patch"; (eval "timeout 900 $SEED_DEMO_CMD") > /tmp/seedv/$NAME.patch.log 2>&1; R1=$?; tail -5 /tmp/seedv/$NAME.patch.log; echo "exit=$R1"
 fi
 # existing tests with patch (demo file removed first)
-rm -f $(git ls-files --others --exclude-standard | grep '_test.go$')
+rm -f $(git ls-files --others --exclude-standard | grep '_test.go$') 2>/dev/null
 echo "== existing tests with patch: ${SEED_TESTS:-$PKGS}"
 timeout 2400 go1.26.8 test -count=1 -vet=off ${SEED_TESTS:-$PKGS} 2>&1 | grep -v "no test files" | tail -8; RT=${PIPESTATUS[0]}
 echo "tests exit=$RT"
